@@ -20,7 +20,7 @@ func init() {
 	mc.Register(&mc.Property{
 		ID:    "C02",
 		Level: "exploration",
-		Rule: "E1 bounded-exhaustive enumeration: every bitmap of B(n,0) ∪ B1(m) (as C01) plus the byte-lane sweep (every byte value in every lane under every 0x00/0xff configuration of the other lanes, deduplicated, embedded as [w], [0,w] and [^0,w,0,1]) " +
+		Rule: "E1 bounded-exhaustive enumeration: every bitmap of B(n,0) ∪ B1(m) (as C01) plus long sparse bitmaps (exactly L words, all zero except ≤2-3 islands from a 10-word island alphabet of popcounts 1,2,31,32,33,63,64 at every combination of positions, L up to 70, thorough 130) and the byte-lane sweep (every byte value in every lane under every 0x00/0xff configuration of the other lanes, deduplicated, embedded as [w], [0,w] and [^0,w,0,1]) " +
 			"× {IndexSelect32, IndexSelect32R64} and × every i in [0, ones) × {Select32, Select32R64}; oracle = list of 1-positions from a bit-by-bit scan. " +
 			"A case is one (bitmap, i, function) or (bitmap, index function); non-trivial when the bitmap has ≥2 ones and at least one 0. i ≥ ones is outside the statement and not called.",
 		Assumptions: []string{
@@ -110,6 +110,21 @@ func c02Space(c *mc.Ctx) gen.BMSpace {
 		return gen.BMSpace{MaxCore: 7, MaxWide: 5}
 	}
 	return gen.BMSpace{MaxCore: 6, MaxWide: 4}
+}
+
+// c02Sparse lists the long sparse families per tier.
+func c02Sparse(c *mc.Ctx) []gen.SparseSpace {
+	if c.Thorough {
+		var out []gen.SparseSpace
+		for _, l := range []int{18, 19, 20, 21, 22, 24, 33, 34, 40} {
+			out = append(out, gen.SparseSpace{Len: l, MaxIslands: 3})
+		}
+		for _, l := range []int{48, 64, 65, 66, 70, 100, 130} {
+			out = append(out, gen.SparseSpace{Len: l, MaxIslands: 2})
+		}
+		return out
+	}
+	return []gen.SparseSpace{{Len: 20, MaxIslands: 3}, {Len: 40, MaxIslands: 2}, {Len: 70, MaxIslands: 2}}
 }
 
 func popSum(ws []uint64) int64 {
@@ -223,6 +238,32 @@ func c02Run(c *mc.Ctx) {
 		c.Count(evals, nontriv)
 		c.Add("bitmaps", bitmaps)
 	})
+	// long sparse bitmaps: long runs of empty words between islands
+	for _, ss := range c02Sparse(c) {
+		ss := ss
+		c.Expect(2*ss.Card() + 2*ss.OnesSum(func(w uint64) int64 { return int64(naivePop(w)) }))
+		c.Par(ss.Shards(), func(sh int) {
+			if c.TooMany() {
+				return
+			}
+			var evals, nontriv, bitmaps int64
+			var ones []int32
+			ss.Each(sh, func(w []uint64) {
+				bitmaps++
+				order := int64(1)<<56 | int64(ss.Len)<<40 | int64(sh)<<28 | bitmaps
+				var e, n int64
+				e, n, ones = c02One(c, order, w, ones)
+				evals += e
+				nontriv += n
+				if bitmaps == 777 && sh == 3 {
+					c.ForceSample(map[string]interface{}{"sparse_words": ss.Len, "islands": ss.MaxIslands, "words": append(gen.Words(nil), w...), "ones": len(ones)})
+				}
+			})
+			c.Count(evals, nontriv)
+			c.Add("bitmaps", bitmaps)
+			c.Add("sparse_long_bitmaps", bitmaps)
+		})
+	}
 	// lane sweep
 	const chunk = 4096
 	nch := (len(lanes) + chunk - 1) / chunk
